@@ -206,19 +206,22 @@ def loop_discipline(ctx):
         raise AnalysisError("the screening error returned by get_induced_vector_potential is no longer bound in the loop")
     bad = []
     kinds = {"converged": 0, "bound": 0, "off": 0}
+    from ..dataflow import conditions_at
+    lpvar = lp.target.id if isinstance(getattr(lp, "target", None), ast.Name) else None
     for e in exits:
-        gs = [(g, br) for g, br in guards_of(fn, e, pm) if isinstance(g, ast.If) and any(x is g for x in ast.walk(lp))]
-        txt = [("" if br == "true" else "not ") + norm(g.test) for g, br in gs]
-        if isinstance(e, ast.Break) and len(gs) == 1 and gs[0][1] == "true" and isinstance(gs[0][0].test, ast.Compare) \
-                and isinstance(gs[0][0].test.ops[0], (ast.Lt, ast.LtE)) and isinstance(gs[0][0].test.left, ast.Name) \
-                and gs[0][0].test.left.id in err_names and "screening_tolerance" in norm(gs[0][0].test.comparators[0]):
+        # the enclosing tests of the exit, each as the condition that holds there (`else` of `if c` and `if not c` read alike)
+        cs = conditions_at(fn, e, pm, within=lp, normal=False, stop=tuple(err_names) + ((lpvar,) if lpvar else ()))
+        txt = [norm(c) for c in cs]
+        c = cs[0] if len(cs) == 1 else None
+        cmp1 = isinstance(c, ast.Compare) and len(c.ops) == 1
+        if isinstance(e, ast.Break) and cmp1 and isinstance(c.ops[0], (ast.Lt, ast.LtE)) and isinstance(c.left, ast.Name) \
+                and c.left.id in err_names and "screening_tolerance" in norm(c.comparators[0]):
             kinds["converged"] += 1
-        elif isinstance(e, ast.Raise) and len(gs) == 1 and gs[0][1] == "true" and "max_iterations_per_step" in txt[0] \
-                and isinstance(getattr(lp, 'target', None), ast.Name) and isinstance(gs[0][0].test, ast.Compare) \
-                and isinstance(gs[0][0].test.ops[0], ast.Lt) and norm(gs[0][0].test.comparators[0]) == lp.target.id \
-                and "max_iterations_per_step" in norm(gs[0][0].test.left):      # canonical: `it > max` reads `max < it`
+        elif isinstance(e, ast.Raise) and cmp1 and lpvar is not None and isinstance(c.ops[0], ast.Lt) and norm(c.comparators[0]) == lpvar \
+                and "max_iterations_per_step" in norm(c.left):      # canonical: `it > max` reads `max < it`
             kinds["bound"] += 1
-        elif isinstance(e, ast.Break) and len(gs) == 1 and gs[0][1] == "false" and norm(gs[0][0].test).endswith("include_screening"):
+        elif isinstance(e, ast.Break) and c is not None and isinstance(c, ast.UnaryOp) and isinstance(c.op, ast.Not) \
+                and norm(c.operand).endswith("include_screening"):
             kinds["off"] += 1
         else:
             bad.append(f"L{e.lineno}: {norm(e)[:60]} under {txt}")
@@ -245,8 +248,8 @@ def loop_discipline(ctx):
            consequence="the returned psi/currents belong to a different iteration than the one whose error was tested")
     reass = [n for n in ast.walk(lp) if isinstance(n, ast.Assign) and any(
         isinstance(x, ast.Name) and x.id in err_names and isinstance(x.ctx, ast.Store) for t in n.targets for x in ast.walk(t))]
-    gtxt = [[("" if br == "true" else "not ") + norm(g.test) for g, br in guards_of(fn, r, pm) if isinstance(g, ast.If)] for r in reass]
-    ok = len(reass) == 1 and len(gtxt[0]) == 1 and gtxt[0][0].endswith(".include_screening") and not gtxt[0][0].startswith("not ")
+    gtxt = [[norm(c) for c in conditions_at(fn, r, pm, within=lp)] for r in reass]
+    ok = len(reass) == 1 and any(t.endswith(".include_screening") and not t.startswith("not ") for t in gtxt[0])
     ctx.ob("R13.5", "the tested error is the one returned by the last get_induced_vector_potential (one assignment, under include_screening)",
            ok, detail=gtxt, where=fu.fq, construct="screening_error assignment", loc=loc(fu, reass[0]) if reass else "",
            message=f"screening error is assigned {len(reass)} times under {gtxt}",
@@ -257,7 +260,7 @@ def loop_discipline(ctx):
     outside = [(s, v) for s, v in a_defs if not any(x is s for x in ast.walk(lp))]
     inside = [(s, v) for s, v in a_defs if any(x is s for x in ast.walk(lp))]
     ok = len(outside) == 1 and norm(outside[0][1]) == "induced_vector_potential" and all(
-        any(norm(g.test).endswith("include_screening") and br == "true" for g, br in guards_of(fn, s, pm) if isinstance(g, ast.If))
+        any(norm(c).endswith("include_screening") and not norm(c).startswith("not ") for c in conditions_at(fn, s, pm, within=lp))
         for s, _ in inside)
     ctx.ob("R13.6", "with screening off A_induced reaches the result unchanged from the input", ok,
            detail={"outside_loop": [norm(s) for s, _ in outside], "inside_loop": [norm(s)[:80] for s, _ in inside]},
@@ -265,9 +268,12 @@ def loop_discipline(ctx):
            message="A_induced is modified although include_screening is false",
            consequence="a non-zero induced vector potential appears with screening disabled")
     fs = repo.func(SOLVER, "TDGLSolver.solve")
-    from ..dataflow import expanded_text
-    init = [expanded_text(fs.node, v) for k, v in _dict_items(fs.node, None) if k == "induced_vector_potential"]
-    ok = len(init) == 2 and init[0].replace("numpy.", "np.").startswith("np.zeros((") and init[0].replace(" ", "").endswith(",2))")
+    import re
+    from ..tables import runner_arguments, SEED
+    a_name = "induced_vector_potential"
+    init = sorted({t["values"][t["names"].index(a_name)] if a_name in t["names"] else "<missing>" for sc, t in runner_arguments(repo)})
+    ok = len(init) == 2 and any(re.fullmatch(r"(np|numpy|xp)\.zeros\(\(.+, 2\)\)", v.replace("shape=", "")) for v in init) \
+        and f"{SEED}.tdgl_data.{a_name}" in init
     ctx.ob("R13.6", "the initial induced potential is zeros((num_edges, 2)) (or the seed's)", ok, detail=init, where=fs.fq,
            construct="initial induced_vector_potential", loc=loc(fs, fs.node), message=f"initial induced potential: {init}",
            consequence="the run starts with a spurious induced vector potential")
